@@ -336,7 +336,7 @@ fn strat() -> impl Strategy<Value = PairCase> {
 }
 
 pub fn run(ctx: &RunCtx) -> Vec<PartOutcome> {
-    let n = ctx.tier.pick(3_000, 50_000);
+    let n = ctx.tier.pick(15_000, 600_000);
     vec![explore(ctx, "two_worlds", n, strat, check)]
 }
 
